@@ -235,6 +235,7 @@ type tcpWorld struct {
 	onServerConn                  func(w *tcpWorld, p *peer, b *world.Backend)
 	startedStep                   int64
 	probeDownSince                map[int]time.Time
+	probeDownPast                 map[int][][2]time.Time // finished probe-failure windows per backend
 	changeDone                    map[int64]int64 // step at which a membership change was requested -> step at which its task returned
 	changeTasks                   map[int64]*simhook.Task
 	removed                       []removedHost
@@ -578,6 +579,12 @@ func (w *tcpWorld) inject(f *TCPFault) bool {
 		return true
 	case "probe-ok":
 		w.env.Backends[f.Node].ProbeOK = true
+		if since, ok := w.probeDownSince[f.Node]; ok {
+			if w.probeDownPast == nil {
+				w.probeDownPast = map[int][][2]time.Time{}
+			}
+			w.probeDownPast[f.Node] = append(w.probeDownPast[f.Node], [2]time.Time{since, time.Now()})
+		}
 		delete(w.probeDownSince, f.Node)
 		return true
 	case "stop":
